@@ -679,6 +679,13 @@ func runFaultCheck(c *explore.Ctx, id string, cfgs []string, histories [][]strin
 	}
 }
 
+var c08Throttle = [][]string{
+	{"put:a", "put:b", "trx:+a,+c", "put:c", "q", "re"},
+	{"trx:+a,+b", "trx:+b,+c", "trx:-a,+c", "put:a", "q"},
+	{"put:a", "put:b", "put:c", "del:a", "put:b", "q", "put:c"},
+	{"trxr:+a,+b", "trxr:+b,-a", "put:c", "re", "put:a"},
+}
+
 func init() {
 	register(&Check{
 		ID:     "C08",
@@ -714,7 +721,13 @@ func init() {
 			if !quick {
 				rd, rmax = 7, 16
 			}
-			runFaultCheck(c, "C08", cfgs, hist, false, !quick, richHistories(c, "C08", rd, rmax)...)
+			extra := richHistories(c, "C08", rd, rmax)
+			// writers and transaction commits that wait for the table compaction (level-0 pause
+			// trigger reached), with that compaction failing
+			for _, h := range c08Throttle {
+				extra = append(extra, cfgHist{"throttle/bytewise", h})
+			}
+			runFaultCheck(c, "C08", cfgs, hist, false, !quick, extra...)
 			c.Coverage["rule"] = "per history (all sequences up to the depth over the alphabet plus 6 long histories, per configuration): one run per fault plan = k-th operation of each (kind, file type) seen in the fault-free baseline x {fail once, fail 3x, half-written write, performed-but-reported-failed, flipped read byte}; thorough adds ordered pairs of single faults on the short histories; oracle: contents while running and after clean close + fault-free reopen must be explained by all acknowledged writes plus some subset of the failed ones; distinct_nontrivial = distinct (history, plan) whose error surfaced to a client call"
 			c.Coverage["alphabet"] = c08Alpha
 			c.Assume = []string{"faults start after the initial Open; histories with 're' close and reopen the DB under the fault plan (Open retried up to 6 times)", "the history runs on the default schedule; timers on the virtual clock (120 virtual seconds of settling after the history)", "a reopen failure after a half-written record is attributed to the fault (durable bytes damaged) and not reported"}
